@@ -1,2 +1,107 @@
-(** C02 - theorems under construction. *)
-From Coq Require Import ZArith.
+(** C02 - f32 results are correctly rounded (nearest, ties to even).
+    FULL STATEMENT (the goal; not yet closed):
+      forall c b i fr e, In c ALL_CONFIGS -> valid_inputb i fr e = true ->
+        parse_float c TABLES BTABLES LIMITS F32 b i fr e = Ok (RN F32 (dec_value i fr e)).
+    PROVED so far (every theorem below is closed by [exact]; proofs in spec/RoundFacts.v,
+    spec/RneBridge.v, proofs/ParseFacts.v, proofs/NoUB.v):
+     - the MEANING of the oracle: RN is Flocq's round-to-nearest-even on the FLT format of the
+       regenerated constants, +infinity from 2^emax on ([RN_spec]); thresholds exactly
+       2^128 - 2^103 and 2^-150 ([overflow_threshold_iff], [underflow_threshold_iff]); never NaN /
+       negative ([RN_range]); an integer-only characterisation ([rne_bits_iff_RN]);
+     - stage 1: [parse_number] returns the first 19 significant digits, the truncation flag and the
+       saturated exact exponent, for every valid input and both build modes ([parse_number_exact]),
+       and the exact value is w*10^q resp. lies in [w,w+1)*10^q ([parse_number_value_bracket]);
+     - no unchecked access on any input ([parse_float_float_or_panic]).
+    See props/C11.v (extended-precision stage), props/C12.v (big integers), props/C18.v (final
+    rounding) for the other stages; what is not proved is attacked by the directed search of the
+    check on every run (exact midpoints, closest approaches, fallback witnesses). *)
+
+From Coq Require Import ZArith QArith List Bool Reals.
+From Coq Require Import Floats.SpecFloat.
+From Flocq Require Import Core.Core.
+From ML Require Import base.RustSem model.Fmt model.FloatOps model.Number model.Parse model.Top spec.Decimal spec.Round spec.RoundFacts
+  gen.Consts gen.Tables gen.BTables gen.PowDump proofs.ParseFacts proofs.Glue proofs.NoUB.
+Import ListNotations.
+
+Open Scope Z_scope.
+
+Theorem C02_sfmt_ok_F32 :
+  sfmt_ok F32 = true.
+Proof. exact sfmt_ok_F32. Qed.
+
+Theorem C02_RN_spec :
+  forall f : format,
+         sfmt_ok f = true ->
+         forall v : Q,
+         (0 <= v)%Q ->
+         let r := round radix2 (FLT_exp (femin f) (prec f)) ZnearestE (Q2R v) in
+         if Rlt_bool r (bpow radix2 (emax f))
+         then
+          0 <= RN f v < inf_bits f /\
+          (let s := sf_of_bits f (RN f v) in
+           valid_binary (prec f) (emax f) s = true /\
+           BinarySingleNaN.is_finite_SF s = true /\
+           BinarySingleNaN.sign_SF s = false /\ bits_of_sf f s = RN f v /\ BinarySingleNaN.SF2R radix2 s = r)
+         else RN f v = inf_bits f /\ sf_of_bits f (RN f v) = S754_infinity false.
+Proof. exact RN_spec. Qed.
+
+Theorem C02_RN_range :
+  forall f : format, sfmt_ok f = true -> forall v : Q, (0 <= v)%Q -> 0 <= RN f v <= inf_bits f.
+Proof. exact RN_range. Qed.
+
+Theorem C02_overflow_threshold_iff :
+  forall f : format,
+         sfmt_ok f = true -> forall v : Q, (0 <= v)%Q -> RN f v = inf_bits f <-> (overflow_thresholdQ f <= v)%Q.
+Proof. exact overflow_threshold_iff. Qed.
+
+Theorem C02_underflow_threshold_iff :
+  forall f : format,
+         sfmt_ok f = true -> forall v : Q, (0 <= v)%Q -> RN f v = 0 <-> (v <= underflow_thresholdQ f)%Q.
+Proof. exact underflow_threshold_iff. Qed.
+
+Theorem C02_RN_Qeq :
+  forall f : format, sfmt_ok f = true -> forall v v' : Q, (0 <= v)%Q -> v == v' -> RN f v = RN f v'.
+Proof. exact RN_Qeq. Qed.
+
+Theorem C02_RN_monotone :
+  forall f : format, sfmt_ok f = true -> forall v v' : Q, (0 <= v)%Q -> (v <= v')%Q -> RN f v <= RN f v'.
+Proof. exact RN_monotone. Qed.
+
+Theorem C02_parse_number_exact :
+  forall (b : build) (i f : list Z) (e : Z),
+         valid_inputb i f e = true -> parse_number b i f e = Ok (parse_spec i f e).
+Proof. exact parse_number_exact. Qed.
+
+Theorem C02_parse_number_value_bracket :
+  forall (b : build) (i f : list Z) (e : Z) (n : number),
+         valid_inputb i f e = true ->
+         parse_number b i f e = Ok n ->
+         let X := e - zlen f in
+         (many n = false -> dec_value i f e == inject_Z (nmant n) * pow10Q X /\ nexp n = clamp_i32 X) /\
+         (many n = true ->
+          exists k : Z,
+            1 <= k /\
+            k = zlen (strip0 (i ++ f)) - 19 /\
+            nexp n = clamp_i32 (X + k) /\
+            (inject_Z (nmant n) * pow10Q (X + k) <= dec_value i f e < inject_Z (nmant n + 1) * pow10Q (X + k))%Q).
+Proof. exact parse_number_value_bracket. Qed.
+
+Theorem C02_parse_float_float_or_panic :
+  forall (c : config) (T : tables) (BT : btables) (L : limits) (f : format) 
+           (b : build) (i fr : list Z) (e : Z),
+         ub_params_ok c T f = true ->
+         (exists v : Z, parse_float c T BT L f b i fr e = Ok v) \/
+         (exists p : panic_kind, parse_float c T BT L f b i fr e = Panic p).
+Proof. exact parse_float_float_or_panic. Qed.
+
+
+Print Assumptions C02_sfmt_ok_F32.
+Print Assumptions C02_RN_spec.
+Print Assumptions C02_RN_range.
+Print Assumptions C02_overflow_threshold_iff.
+Print Assumptions C02_underflow_threshold_iff.
+Print Assumptions C02_RN_Qeq.
+Print Assumptions C02_RN_monotone.
+Print Assumptions C02_parse_number_exact.
+Print Assumptions C02_parse_number_value_bracket.
+Print Assumptions C02_parse_float_float_or_panic.
